@@ -19,6 +19,7 @@ CONSTANTS MaxSeries, MaxMatchers, MaxHistory,
           Lits,                      \* literals of = and != matchers ("c" is a value no series has)
           MatcherNames,              \* label names used in matchers (n0, n1 exist in worlds; zz never does)
           SetAlts, ClsAlts,          \* alternative lists used for set / class regexes
+          HistLits,                  \* literals of the matchers used in longer histories
           HistNames, HistTypes       \* histories longer than one query use single matchers of these names and types
 
 (* values of the constants (a .cfg file cannot write tuples) *)
@@ -31,7 +32,10 @@ Vals == {"", "a", "b"}
 LsSpace == { [n0 |-> x, n1 |-> y] : x \in Vals, y \in Vals }
 (* a world: distinct label sets; the id of a series is its position in a fixed enumeration *)
 LsSeq == SetToSeq(LsSpace)
-WorldOf(I) == { [id |-> i, ls |-> [n \in { k \in {"n0", "n1"} : LsSeq[i][k] # "" } |-> LsSeq[i][n]]] : i \in I }
+(* series i has chunks in the time slots SlotsOf(i): only early (0), only late (1), or both - a  *)
+(* fixed function of the label set, so that the number of worlds does not grow                   *)
+SlotsOf(i) == CASE i % 3 = 1 -> {0} [] i % 3 = 2 -> {1} [] OTHER -> {0, 1}
+WorldOf(I) == { [id |-> i, slots |-> SlotsOf(i), ls |-> [n \in { k \in {"n0", "n1"} : LsSeq[i][k] # "" } |-> LsSeq[i][n]]] : i \in I }
 Worlds == { WorldOf(I) : I \in { J \in SUBSET (1..Len(LsSeq)) : Cardinality(J) <= MaxSeries } }
 
 Patterns == { [kind |-> "any", alts |-> <<>>], [kind |-> "nonempty", alts |-> <<>>] }
@@ -43,12 +47,19 @@ RECURSIVE SetsUpTo(_)          \* non-empty sets of at most k matchers
 SetsUpTo(k) == IF k = 1 THEN { {m} : m \in Matchers }
                ELSE SetsUpTo(k - 1) \cup { S \cup {m} : S \in SetsUpTo(k - 1), m \in Matchers }
 MatcherSets == SetsUpTo(MaxMatchers)
-HistSets == { {m} : m \in { x \in Matchers : x.name \in HistNames /\ x.type \in HistTypes } }
+(* query histories (cache hits / misses / evictions, different time ranges) use these matcher    *)
+(* sets: single matchers, and pairs on two names (only those can have a lazy group)              *)
+HistM(nm, types) == { x \in Matchers : x.name = nm /\ x.type \in types /\ x.kind = "lit" /\ x.alts[1] \in HistLits }
+HistSingles == UNION { { {m} : m \in HistM(nm, HistTypes) } : nm \in HistNames }
+HistPairs == { {x, y} : x \in HistM("n0", {"EQ"}), y \in HistM("n1", {"EQ"}) }
+HistSets == HistSingles \cup HistPairs
+Ranges == { {0}, {1}, {0, 1} }          \* requested time range = the slots it covers
+Whole == {0, 1}
 
 VARIABLES world,     \* the block's series
-          cache,     \* expanded-postings cache: set of <<matcher set, ids>>
+          cache,     \* expanded-postings cache: set of <<matcher set, ids>> (the key has no time range)
           n,         \* number of queries so far
-          last       \* <<matcher set, lazy choice, hit, answer>> of the last query
+          last       \* <<matcher set, lazy choice, hit, answer, range>> of the last query
 vars == <<world, cache, n, last>>
 
 Init == /\ world \in Worlds
@@ -56,12 +67,15 @@ Init == /\ world \in Worlds
         /\ n = 0
         /\ last = <<>>
 
+InRange(rng) == { s.id : s \in { x \in world : x.slots \cap rng # {} } }
 Cached(ms) == { e \in cache : e[1] = ms }
-Answer(ms, L) ==
+(* one Series request on the block: selectors ms, time range rng, lazy choice L *)
+Answer(ms, L, rng) ==
     LET hit == Cached(ms) # {}
-        ans == IF hit THEN (CHOOSE e \in Cached(ms) : TRUE)[2] ELSE ExpandNames(world, ms, L)
-    IN  /\ last' = <<ms, L, hit, ans>>
-        /\ cache' = IF hit THEN cache ELSE cache \cup {<<ms, ans>>}     \* stored after expansion / after the last batch
+        ids == IF hit THEN (CHOOSE e \in Cached(ms) : TRUE)[2] ELSE ExpandNames(world, ms, L)
+        ans == ids \cap InRange(rng)                       \* series without chunks in the range are skipped
+    IN  /\ last' = <<ms, L, hit, ans, rng>>
+        /\ cache' = IF hit THEN cache ELSE cache \cup {<<ms, StoredInCache(ids, InRange(rng), L)>>}
         /\ n' = n + 1
         /\ UNCHANGED world
 (* Known finding (KNOWN_FINDINGS.jsonl, property=C10, key ext-only-selectors): when no selector is  *)
@@ -71,12 +85,14 @@ Answer(ms, L) ==
 KnownFindingCase(ms) == ms = {}
 (* the first query of a history ranges over the whole matcher universe ... *)
 FirstQuery == /\ n = 0 /\ cache = {}
-              /\ \E ms \in MatcherSets : ~KnownFindingCase(ms) /\ \E L \in LazyChoices(world, ms) : Answer(ms, L)
-(* ... longer histories (cache hits, misses, evictions in between) over the HistNames matchers *)
+              /\ \E ms \in MatcherSets : ~KnownFindingCase(ms) /\ \E L \in LazyChoices(world, ms) :
+                    \E rng \in (IF ms \in HistSets THEN Ranges ELSE {Whole}) : Answer(ms, L, rng)
+(* ... longer histories (cache hits, misses, evictions in between; the same selectors over        *)
+(* narrow-then-wide, wide-then-narrow and disjoint ranges) over the HistSets                       *)
 HistQuery == /\ n > 0 /\ n < MaxHistory
              /\ \A e \in cache : e[1] \in HistSets
              /\ last[1] \in HistSets
-             /\ \E ms \in HistSets : \E L \in LazyChoices(world, ms) : Answer(ms, L)
+             /\ \E ms \in HistSets : \E L \in LazyChoices(world, ms) : \E rng \in Ranges : Answer(ms, L, rng)
 Evict == /\ cache # {} /\ n < MaxHistory
          /\ \E e \in cache : cache' = cache \ {e}
          /\ UNCHANGED <<world, n, last>>
@@ -84,7 +100,8 @@ Next == FirstQuery \/ HistQuery \/ Evict
 Spec == Init /\ [][Next]_vars
 
 (* -------- C10 (selection part) as invariants -------- *)
-C10_AnswerIsTheSelection == last # <<>> => last[4] = SelectIds(world, last[1])
+(* every answer = the direct read for ITS range, whatever the history *)
+C10_AnswerIsTheSelection == last # <<>> => last[4] = SelectIds(world, last[1]) \cap InRange(last[5])
 CacheHoldsSelections == \A e \in cache : e[2] = SelectIds(world, e[1])
 
 (* the order in which the groups of one name are merged (Go map iteration) does not matter *)
